@@ -311,6 +311,15 @@ impl FetchState {
                 };
                 log::trace!(target: "fetch", "{sigrefs_at:?}");
                 self.run_stage(handle, handshake, &sigrefs_at)?;
+                // N.b. the `rad/sigrefs` are going to be updated to the announced
+                // `Oid`s, so these, and not whatever the remote happens to advertise,
+                // are the signed references that must be loaded, verified and
+                // validated against.
+                for RefsAt { remote, at } in &refs_at {
+                    if !handle.is_blocked(remote) {
+                        self.sigrefs.insert(*remote, *at);
+                    }
+                }
                 let remotes = refs_at.iter().map(|r| &r.remote);
 
                 let signed_refs = sigrefs::RemoteRefs::load(&self.as_cached(handle), remotes)?;
